@@ -313,6 +313,30 @@ func generateMode(key echx.KeyPair, b base, thorough, retry bool) (out []fault) 
 			s9.Outer = o
 			add("refs-repeated-and-outer-carries-it-twice", fmt.Sprint(i), []string{IP, DE}, s9.Build().Outer.Record())
 		}
+		// ... the same with ANOTHER reference between the two: references [.. X Y X ..] over an outer hello [.. X Y X ..]
+		for i := 0; i+1 < len(refs); i++ {
+			rl := slices.Insert(slices.Clone(refs), i+2, refs[i])
+			s9 := withMarker(tlsref.OuterExtensions(rl...))
+			o := s9.Outer.Clone()
+			jx, jy := -1, -1
+			for j, e := range o.Exts {
+				if e.Type == refs[i] && jx < 0 {
+					jx = j
+				}
+				if e.Type == refs[i+1] && jy < 0 {
+					jy = j
+				}
+			}
+			if jx < 0 || jy < jx {
+				ev.ToolError("c04: the referenced extensions are not in the outer hello in reference order")
+			}
+			o.Exts = slices.Insert(o.Exts, jy+1, o.Exts[jx])
+			if jy < s9.EchIdx {
+				s9.EchIdx++
+			}
+			s9.Outer = o
+			add("refs-repeated-with-another-between-and-outer-carries-it-twice", fmt.Sprint(i), []string{IP, DE}, s9.Build().Outer.Record())
+		}
 		for i := range refs {
 			miss := slices.Clone(refs)
 			miss[i] = 0x7777
